@@ -170,3 +170,4 @@ def check(facts, rep, tier, cfg):
     rep.rule("C12.S7", "who-may: the functions that touch the critical resources behind this property are those of the reference tree (flow table, closed flag, per-stream / datagram / outbound queues, last-pong timestamp, client id maps, shared TLS identity)")
     import whomay
     whomay.check(facts, rep, "C12.S7", "C12")
+    whomay.check_new_statics(facts, rep, "C12.S7", "C12")
